@@ -748,6 +748,14 @@ def run_C11(res, tier, seed, t_end, bad):
     Bl.run_sched_scenarios(res, tier, seed, t_end, 2000)
     if res.findings:
         return
+    # the argument grammar of the blocking commands (timeout forms, wrong types, inside MULTI) - the initial attempt only
+    blk = (b'blpop', b'brpop', b'brpoplpush')
+    Mx.run_cases(res, 'C11', [c for c in Mx.lists_cases() if any(isinstance(f, list) and f[0] in blk for f in c)], tier, seed, t_end, 200, (), None, label='blocking-arguments')
+    if res.findings:
+        return
+    Bl.run_tx_then_block(res, seed)
+    if res.findings:
+        return
     Bl.run_sched_campaign(res, tier, seed, t_end, budget(tier, 40, 1200), 70)
     if not res.findings:
         Bl.real_threads_smoke(res, tier, seed, t_end)
@@ -757,6 +765,9 @@ def run_C14(res, tier, seed, t_end, bad):
     import aio
     # (0) small scope in full: park / pipeline behind / feed in the same or the next turn of the event loop / serve or time out
     aio.run_async_campaign(res, 'C14', None, 0, seed + 3, t_end, plans=aio.async_scenarios())
+    if res.findings:
+        return
+    aio.run_async_campaign(res, 'C14', None, 0, seed + 4, t_end, plans=aio.async_extra_scenarios())
     if res.findings:
         return
     # (1) blocking pops on the asyncio front-end: served, timed out, pipelined requests behind them
@@ -850,6 +861,8 @@ def run_C20(res, tier, seed, t_end, bad):
             clientlevel.run_C20_asyncio(res, tier, seed, t_end)
         if not res.findings:
             clientlevel.run_C20_lockfree_close(res, tier, seed, t_end)
+        if not res.findings:
+            clientlevel.run_reaper_race(res, 'C20', tier, seed, t_end)
 
 
 def run_C13(res, tier, seed, t_end, bad):
@@ -894,6 +907,10 @@ def run_C12(res, tier, seed, t_end, bad):
             res.add({'kind': 'threads', 'verdict': 'violation', 'property': 'C12', 'clause': 'same_data', 'detail': 'split databases'})
             return
     constructor_race(res, tier, seed, t_end)
+    if not res.findings:
+        # a lock-free close() from another thread landing at every point of the clean-up loop (deterministic stand-in for the race)
+        import clientlevel
+        clientlevel.run_reaper_race(res, 'C12', tier, seed, t_end)
     if not res.findings:
         # replies are converted for the caller AFTER the lock is released: a reply that is (or contains) a stored container would be a
         # read outside the critical section - checked deterministically by the aliasing check of every correspondence session
